@@ -380,8 +380,59 @@ def rule_dupcheck(program, ctx):
         ctx.ok(rid, t, "add iff not get_event_data(txn, event.id_bytes)")
 
 
+def rule_drain(program, ctx):
+    rid = ctx.rule(
+        "C06.drain",
+        "LMDB: every acknowledged event is applied before shutdown: LMDBStorage.close stops the writer only through the queued `None` sentinel followed by "
+        "join(); the loop flag `running` is not cleared before the queue has drained (the writer tests it before every task)",
+        floor=1,
+    )
+    fn = program.func("nostr_relay.storage.kv:LMDBStorage.close")
+    cfg = cfg_of(fn)
+    sent = cfg.stmt_nodes(lambda s: any(call_name(c).endswith("writer_queue.put") and c.args and isinstance(c.args[0], ast.Constant) and c.args[0].value is None for c in own_calls(s)), kinds=("stmt",))
+    join = cfg.stmt_nodes(lambda s: any(call_name(c).endswith("writer_thread.join") for c in own_calls(s)), kinds=("stmt",))
+    flags = cfg.stmt_nodes(lambda s: isinstance(s, ast.Assign) and any(dotted(t).endswith(".running") for t in s.targets), kinds=("stmt",))
+    if not sent or not join:
+        ctx.bad(finding_func(P, rid, fn, "close() no longer drains the writer (None sentinel + join)", text="def close(...) :: drain"))
+        return
+    joined = {n: {"n", "t", "f"} for n in join}
+    bad = [f for f in flags if must_pass(cfg, joined, [f])]
+    if bad:
+        ctx.bad(finding_at(P, rid, cfg.ast_of(bad[0]), "the writer loop's `running` flag is cleared before the writer thread was joined: the writer finishes the current task and exits, "
+                           "every queued (already acknowledged and broadcast) event is lost"))
+    else:
+        ctx.ok(rid, cfg.ast_of(sent[0]), "writer stopped by the None sentinel, then join()")
+    db_close = cfg.stmt_nodes(lambda s: any(call_name(c) == "self.db.close" for c in own_calls(s)), kinds=("stmt",))
+    for d in db_close:
+        if must_pass(cfg, joined, [d]):
+            ctx.bad(finding_at(P, rid, cfg.ast_of(d), "the LMDB environment is closed before the writer thread was joined"))
+
+
+def rule_strict(program, ctx):
+    rid = ctx.rule(
+        "C06.strict",
+        "a resubmitted replaceable event must not supersede itself: DBStorage.pre_save selects candidates with created_at strictly less than the incoming one "
+        "(with <= the duplicate deletes its own stored row, the INSERT succeeds, the client gets OK=true and the event is broadcast again); the LMDB scan skips the event's own id",
+        floor=1,
+    )
+    ps = program.func("nostr_relay.storage.db:DBStorage.pre_save")
+    from ..lib import expand_aliases
+    cmps = [c for c in ast.walk(ps) if isinstance(c, ast.Compare) and ast.unparse(c.left).endswith(".c.created_at") and "event.created_at" in ast.unparse(c.comparators[0])]
+    if not cmps:
+        ctx.bad(finding_func(P, rid, ps, "pre_save no longer bounds the superseded versions by created_at", text="def pre_save(...) :: older"))
+    for c in cmps:
+        if isinstance(c.ops[0], ast.Lt):
+            ctx.ok(rid, c, "candidates strictly older than the incoming event")
+        else:
+            ctx.bad(finding_at(P, rid, c, "superseded candidates include events with the same created_at: a resubmitted replaceable event deletes its own stored row, is inserted again, "
+                               "acknowledged OK=true instead of duplicate and broadcast a second time"))
+
+
 def run(program, ctx):
     from . import c07
+
+    rule_strict(program, ctx)
+    rule_drain(program, ctx)
 
     c07.rule_sqlregion(program, ctx, prop=P, rid="C06.trace")
     rule_dupcheck(program, ctx)
@@ -401,6 +452,7 @@ DB = "nostr_relay/storage/db.py"
 KV = "nostr_relay/storage/kv.py"
 
 MUTANTS = [
+    M("c06-close-stops-writer-early", KV, "            self.writer_queue.put(None)\n            self.writer_thread.join()", "            self.writer_thread.running = False\n            self.writer_queue.put(None)\n            self.writer_thread.join()", "C06.drain"),
     M("c06-insert-own-txn", DB, "                        changed = result.rowcount == 1\n                        await self.post_save(event, connection=conn, changed=changed)\n",
       "                        changed = result.rowcount == 1\n                async with self.db.begin() as conn:\n                    if do_save:\n                        await self.post_save(event, connection=conn, changed=changed)\n", "C06.trace"),
     M("c06-writer-memo", KV, "                        if operation == \"add\" and not get_event_data(\n                            txn, args[0].id_bytes\n                        ):",
